@@ -44,6 +44,26 @@ def _recorders(log):
     return {a: mkrec(a) for a in AGGS}
 
 
+def _install(ag, log):
+    """recorders in place of the ten numpy reductions of the cloned aggregation module; any OTHER module-level table keyed by the
+    original reduction functions (dispatch tables) is re-keyed to the recorders, so a route around the recorder shows as a non-H term"""
+    saved = ag["NUMPY_AGGREGATIONS"]
+    recs = _recorders(log)
+    rekeyed = []
+    for nm, obj in list(ag.items()):
+        if isinstance(obj, dict) and obj is not saved and any(k is v for k in list(obj) for v in saved.values() if callable(k)):
+            new = {(recs[[a for a in saved if saved[a] is k][0]] if any(saved[a] is k for a in saved) else k): v for k, v in obj.items()}
+            rekeyed.append((nm, obj))
+            ag[nm] = new
+    ag["NUMPY_AGGREGATIONS"] = recs
+
+    def undo():
+        ag["NUMPY_AGGREGATIONS"] = saved
+        for nm, obj in rekeyed:
+            ag[nm] = obj
+    return undo
+
+
 def _r(v):
     if isinstance(v, sc.SymInt):
         return z3.ToReal(v.e)
@@ -178,8 +198,7 @@ def make_edge(oid, n_edge, n_node, lead, tiers=("quick", "thorough")):
         w = world()
         ag = w.G["uxarray.core.aggregation"]
         log = []
-        saved = ag["NUMPY_AGGREGATIONS"]
-        ag["NUMPY_AGGREGATIONS"] = _recorders(log)
+        undo = _install(ag, log)
         try:
             extra = {"edge_node_connectivity": symxr.DataArray(C.sarr_int(en), dims=["n_edge", "two"])}
             g = C.clone_grid(symnp.array(rows), lon, lat, extra=extra)
@@ -189,7 +208,7 @@ def make_edge(oid, n_edge, n_node, lead, tiers=("quick", "thorough")):
             name = agg.concrete()
             out = getattr(da, f"topological_{name}")(destination="edge")
         finally:
-            ag["NUMPY_AGGREGATIONS"] = saved
+            undo()
         ov = out.values
         ctx.prove("result carries n_edge in place of n_node, same grid", sc.and_(tuple(out.dims) == tuple(dims[:-1]) + ("n_edge",), out.uxgrid is g,
                                                                                 ov.shape_cap == tuple(lead) + (n_edge,)))
@@ -211,14 +230,19 @@ def make_edge(oid, n_edge, n_node, lead, tiers=("quick", "thorough")):
         g = C.real_grid(rows, lon, lat, extra={"edge_node_connectivity": xr.DataArray(en, dims=["n_edge", "two"])})
         data = np.array(v["vals"], dtype=float).reshape(shape)
         dims = [f"d{i}" for i in range(len(lead))] + ["n_node"]
-        for name in AGGS:
-            d = data > 0 if name in ("all", "any") else data
-            out = getattr(ux.UxDataArray(d, dims=dims, uxgrid=g, name="t"), f"topological_{name}")(destination="edge")
-            got = np.asarray(out.values)
-            for e in range(n_edge):
-                exp = getattr(np, name)(d[..., en[e]], axis=-1)
-                if tuple(out.dims)[-1] != "n_edge" or not np.allclose(np.asarray(got[..., e], dtype=float), np.asarray(exp, dtype=float), rtol=1e-9, atol=1e-12):
-                    return f"topological_{name}(edge)[..., {e}] = {np.asarray(got[..., e]).tolist()} but {name} over nodes {en[e].tolist()} is {np.asarray(exp).tolist()}"
+        # the symbolic claim is about WHICH operand reaches WHICH numpy reduction; a concrete witness is searched over the model's float data and
+        # the same data as bool / int8 (numpy's reductions promote: sum of two True is 2, int8 sums accumulate in the platform integer)
+        variants = [("float64", data), ("bool", data > 0), ("int8", np.clip(np.round(data * 25), -127, 127).astype(np.int8))]
+        for dname, dd in variants:
+            for name in AGGS:
+                d = dd > 0 if (name in ("all", "any") and dname == "float64") else dd
+                out = getattr(ux.UxDataArray(d, dims=dims, uxgrid=g, name="t"), f"topological_{name}")(destination="edge")
+                got = np.asarray(out.values)
+                for e in range(n_edge):
+                    exp = getattr(np, name)(d[..., en[e]], axis=-1)
+                    if tuple(out.dims)[-1] != "n_edge" or not np.allclose(np.asarray(got[..., e], dtype=float), np.asarray(exp, dtype=float), rtol=1e-9, atol=1e-12):
+                        return (f"topological_{name}(edge)[..., {e}] on {dname} data = {np.asarray(got[..., e]).tolist()} but numpy's {name} over the edge's nodes {en[e].tolist()} "
+                                f"(values {np.asarray(d[..., en[e]]).tolist()}) is {np.asarray(exp).tolist()}")
         return None
 
     return Obligation(oid, f"node->edge aggregation, {n_edge} edges with symbolic end nodes, leading dims {tuple(lead)}", setup, run, replay,
